@@ -534,6 +534,25 @@ def program_set(tier, seed, want_calls=True):
                     add((("cfg", "acc1", pt), ("for", "args", body)))
                     if not quick:
                         add((("cfg", "acc1", pw), ("for", "c01", body)))
+    # a conditional in which one branch ends with the accelerator clobbered by a call and the other one configures it,
+    # between two configurations (all combinations of a 3-value palette)
+    if want_calls:
+        for p0 in range(3):
+            for p1 in range(3):
+                for p2 in range(3):
+                    for call in (("call",),) if quick else (("call",), ("lcall",)):
+                        for c in (0,) if quick else (0, 1):
+                            add((("cfg", "acc1", p0), ("if", c, (call,), (("cfg", "acc1", p1),)), ("cfg", "acc1", p2)))
+                            add((("cfg", "acc1", p0), ("if", c, (("cfg", "acc1", p1),), (call,)), ("cfg", "acc1", p2)))
+                            if p2 == p0:
+                                add((("cfg", "acc1", p0), ("if", c, (("cfg", "acc1", p1), call), (("cfg", "acc1", p1),)), ("cfg", "acc1", p2)))
+    # a loop body that launches one configuration twice (a relaunch) before it configures again
+    for bk in ("args", "k13"):
+        for p1 in (3, 0, 5):
+            for p2 in (0, 1, 2, 4):
+                if p1 != p2:
+                    add((("for", bk, (("cfg", "acc1", p1), ("rl", "acc1"), ("cfg", "acc1", p2))),))
+                    add((("cfg", "acc1", p2), ("for", bk, (("cfg", "acc1", p1), ("rl", "acc1"), ("rl", "acc1"), ("cfg", "acc1", p2)))))
     # two nested loops that both start with a configuration: the inner one computed from what the outer loop provides
     # (its counter, its carried value, a value of the outer configuration's input chain)
     for outer in ("for", "forc"):
